@@ -76,6 +76,11 @@ func footnoteOracleP(out []byte, prefix string) (probs []fnProblem, items, sups 
 		}
 		if id, ok := t.Attr("id"); ok {
 			ids[id]++
+			// every generated id has the documented shape: an item id is prefix + "fn:" + number, a reference id
+			// prefix + "fnref" + optional number + ":" + number
+			if strings.HasPrefix(id, prefix+"fn:") && !reFn.MatchString(id) || strings.HasPrefix(id, prefix+"fnref") && !reFnRef.MatchString(id) {
+				probs = append(probs, fnProblem{code: "generated-id-malformed", msg: fmt.Sprintf("<%s id=%q>: not a footnote item or reference id of the documented shape", t.Name, id)})
+			}
 		}
 		switch t.Name {
 		case "li":
@@ -273,6 +278,9 @@ func c16Menu() []c16Item {
 			c16Item{md: "[^" + l + "]: DR" + l + "[^" + strconv.Itoa(y) + "]", def: x, marker: "DR" + l, refs: nil},
 			c16Item{md: "> [^" + l + "]: DQ" + l, def: x, marker: "DQ" + l},
 			c16Item{md: "- [^" + l + "]: DL" + l, def: x, marker: "DL" + l},
+			// a definition whose body holds, inside a container, the definition of another label
+			c16Item{md: "[^" + l + "]: DN" + l + "\n\n    > [^" + strconv.Itoa(y) + "]: DNQ" + l, def: x, marker: "DN" + l},
+			c16Item{md: "[^" + l + "]: DM" + l + "\n\n    - [^" + strconv.Itoa(y) + "]: DNL" + l + "\n", def: x, marker: "DM" + l},
 		)
 	}
 	return m
